@@ -649,4 +649,107 @@ theorem connect_eval (W : WellEncoded dec enc oc ic) :
       exact out_ok_ack W hB _ _
 
 
+/-! ### ack(Null) is only ever written after the peer's credentials were accepted -/
+
+theorem errAck_no_null {v : Verdict} (h : v ≠ .he 0) : WFrame.ack 0 ∉ errAck v := by
+  unfold errAck
+  split
+  · simp
+  · rename_i c _; simp; intro hc; exact h (by rw [hc])
+  · simp
+
+theorem readRaw_fail_ne_null {allowed : List Nat} {s : Bytes} {e : End} {v : Verdict} {req : Nat}
+    (h : readRaw allowed s e = .fail v req) : v ≠ .he 0 := by
+  unfold readRaw at h
+  repeat' (split at h)
+  all_goals (try (simp at h))
+  all_goals (try (obtain ⟨rfl, _⟩ := h))
+  all_goals simp
+
+theorem readMsg_fail_ne_null {dec : Decoder} {allowed : List Nat} {pool : PoolObj} {s : Bytes} {e : End}
+    {v : Verdict} {req : Nat} {fr : List (Nat × Nat × Nat)}
+    (h : readMsg dec allowed pool s e = .fail v req fr) : v ≠ .he 0 := by
+  unfold readMsg at h
+  split at h
+  · rename_i v' req' hr
+    simp at h
+    obtain ⟨rfl, _, _⟩ := h
+    exact readRaw_fail_ne_null hr
+  · rename_i tp p rest off hr
+    simp only [msgTypeCred, msgTypeAck, msgTypeProto] at h
+    by_cases h1 : tp = 1
+    · subst h1
+      simp only [if_true] at h
+      split at h <;> simp at h <;> obtain ⟨rfl, _, _⟩ := h <;> simp
+    · by_cases h2 : tp = 2
+      · subst h2
+        simp only [if_neg h1, if_true] at h
+        split at h <;> simp at h <;> obtain ⟨rfl, _, _⟩ := h <;> simp
+      · by_cases h3 : tp = 3
+        · subst h3
+          simp only [if_neg h1, if_neg h2, if_true] at h
+          split at h <;> simp at h <;> obtain ⟨rfl, _, _⟩ := h <;> simp
+        · simp [h1, h2, h3] at h
+
+theorem failClose_wrote (v : Verdict) (w : List WFrame) (rd : List (Nat × Nat × Nat)) (mr : Nat) (p : PoolObj)
+    (hv : v ≠ .he 0) (hw : WFrame.ack 0 ∉ w) : WFrame.ack 0 ∉ (failClose v w rd mr p).wrote := by
+  unfold failClose
+  split
+  · exact hw
+  · exact hw
+  · simp only [List.mem_append, not_or]; exact ⟨hw, errAck_no_null hv⟩
+
+theorem outgoing_null_ack {dec : Decoder} {cfg : Cfg} {pool : PoolObj} {s : Bytes} {e : End}
+    (h : WFrame.ack 0 ∈ (outgoing dec cfg pool s e).wrote) : AcceptedCreds dec cfg pool s e := by
+  unfold outgoing at h
+  cases h1 : readMsg dec outRead1 pool s e with
+  | fail v req fr =>
+    rw [h1] at h; simp only at h
+    exact absurd h (failClose_wrote _ _ _ _ _ (readMsg_fail_ne_null h1) (by simp))
+  | ok r1 =>
+    rw [h1] at h; simp only at h
+    obtain ⟨p1, hr1, _, _, _, hk1⟩ := readMsg_ok h1
+    rcases hk1 with ⟨htp1, hmsg, f, hd1, hp1⟩ | ⟨_, hmsg, _⟩ | ⟨htp, hmsg, _⟩ | ⟨h1', h2', h3', hmsg, _⟩
+    · rw [hmsg] at h; simp only at h
+      cases hc : check cfg r1.pool with
+      | error c =>
+        rw [hc] at h; simp only at h
+        have hne : Verdict.he c ≠ .he 0 := by
+          intro hh; injection hh with hh; exact check_error_ne_zero hc hh
+        exact absurd h (failClose_wrote _ _ _ _ _ hne (by simp))
+      | ok res =>
+        refine ⟨p1, r1.rest, f, res, ?_, hd1, ?_⟩
+        · have := readRaw_narrow hr1; rw [htp1] at this; exact this
+        · rw [← hp1]; exact hc
+    · rw [hmsg] at h; simp at h
+    · rw [hmsg] at h; simp at h
+    · rw [hmsg] at h; simp at h
+
+theorem incoming_null_ack {dec : Decoder} {cfg : Cfg} {pool : PoolObj} {s : Bytes} {e : End}
+    (h : WFrame.ack 0 ∈ (incoming dec cfg pool s e).wrote) : AcceptedCreds dec cfg pool s e := by
+  unfold incoming at h
+  cases h1 : readMsg dec inRead1 pool s e with
+  | fail v req fr =>
+    rw [h1] at h; simp only at h
+    exact absurd h (failClose_wrote _ _ _ _ _ (readMsg_fail_ne_null h1) (by simp))
+  | ok r1 =>
+    rw [h1] at h; simp only at h
+    obtain ⟨p1, hr1, _, _, _, hk1⟩ := readMsg_ok h1
+    rcases hk1 with ⟨htp1, hmsg, f, hd1, hp1⟩ | ⟨_, hmsg, _⟩ | ⟨htp, hmsg, _⟩ | ⟨h1', h2', h3', hmsg, _⟩
+    · rw [hmsg] at h; simp only at h
+      cases hc : check cfg r1.pool with
+      | error c =>
+        rw [hc] at h; simp only at h
+        have hne : Verdict.he c ≠ .he 0 := by
+          intro hh; injection hh with hh; exact check_error_ne_zero hc hh
+        exact absurd h (failClose_wrote _ _ _ _ _ hne (by simp))
+      | ok res =>
+        refine ⟨p1, r1.rest, f, res, ?_, hd1, ?_⟩
+        · have := readRaw_narrow hr1; rw [htp1] at this; exact this
+        · rw [← hp1]; exact hc
+    · rw [hmsg] at h; simp at h
+    · rw [hmsg] at h; simp at h
+    · rw [hmsg] at h; simp at h
+
+
 end AnySync.Handshake
